@@ -142,6 +142,27 @@ CHECKS = {
         "texts are compared as joined text (a trailing newline / [''] vs [] are the same text); "
         "paragraph order follows the add_*_paragraph docstrings",
         "DESIGN.md 4/C17"),
+    "C03": (
+        "bounded-exhaustive all-pairs comparison over an enumerated version pool + Hypothesis "
+        "near-miss pairs and triples; oracle: line-by-line port of dpkg's verrevcmp cross-checked "
+        "with a sort-key model (and with the dpkg binary), trichotomy/antisymmetry/transitivity, "
+        "hash equality for equal versions",
+        "generated-input search, differential against two independent formulations of dpkg's "
+        "ordering (themselves validated against dpkg --compare-versions); all ordered pairs of the "
+        "pool are compared; a search, not a proof",
+        "trusts the dpkg port / sort-key model (a disagreement between them or with dpkg is a "
+        "harness error); letter-led upstream versions count as valid (dpkg only warns)",
+        "DESIGN.md 4/C03"),
+    "C14": (
+        "bounded-exhaustive enumeration of all strings of <=4 (thorough <=5) characters over a "
+        "13-character alphabet + Hypothesis single-character mutations of valid versions and "
+        "component-assignment histories; oracle: hand-written regex-free three-valued recogniser "
+        "(cross-checked with dpkg --validate-version), lossless decomposition, exact rollback",
+        "generated-input search against an independent recogniser of the version grammar; the small "
+        "string space is enumerated completely; a search, not a proof",
+        "trusts vcheck/model/c14_recogniser.py; strings whose split leaves an empty upstream or an "
+        "empty revision are UNSPECIFIED (either outcome accepted); full_version is assigned strings only",
+        "DESIGN.md 4/C14"),
 }
 
 NOT_YET = "check not built yet in this round (planned; see DESIGN.md section 4)"
